@@ -323,6 +323,7 @@ pub fn run_case_with(case: &Case, resizer: &mut Resizer, fill: u8) -> String {
     let kind = pt_kind(case.pt);
     let sbytes = comps_to_bytes(kind, &case.sbuf);
     let mut dbytes = vec![fill; case.dlen() * case.pt.size()];
+    crate::util::note_current(&line_prefix(case));
     unsafe { resizer.set_cpu_extensions(case.ext) };
     if let Some(c) = case.custom {
         c.install();
